@@ -11,6 +11,7 @@ import (
 	"fmt"
 	"io"
 	"net"
+	"runtime"
 	"sync"
 	"sync/atomic"
 	"time"
@@ -75,7 +76,11 @@ type ConnPlan struct {
 	StallAccept   chan struct{} // if non-nil: wait for it (or peer close) before the handshake
 	QueryErr      []byte        // ERR payload in answer to the first COM_QUERY
 	OnQuery       func(n int)   // called with the 1-based number of each COM_QUERY before it is answered
-	AuthErr       []byte        // ERR payload in answer to the handshake response
+	// Chop != 0: everything the master writes reaches the socket in pieces of pseudo-random sizes (1 byte ..
+	// 16 KiB, seeded by this value) with occasional yields in between, so that packet headers and bodies
+	// arrive split over several reads on the replica's side
+	Chop    uint32
+	AuthErr []byte // ERR payload in answer to the handshake response
 
 	// OnDump builds the dump script from the decoded request.
 	OnDump func(req Command) []Step
@@ -229,9 +234,30 @@ func (m *Master) acceptLoop() {
 }
 
 func writePacket(c net.Conn, seq byte, payload []byte) error {
-	hdr := []byte{byte(len(payload)), byte(len(payload) >> 8), byte(len(payload) >> 16), seq}
-	_, err := c.Write(append(hdr, payload...))
+	_, err := writePackets(c, seq, payload)
 	return err
+}
+
+// writePackets sends a payload as the protocol prescribes: in chunks of 2^24-1 bytes, the last chunk
+// being shorter (possibly empty); it returns the number of packets (= sequence numbers) used.
+func writePackets(c net.Conn, seq byte, payload []byte) (int, error) {
+	const max = 1<<24 - 1
+	n := 0
+	for {
+		chunk := payload
+		if len(chunk) > max {
+			chunk = chunk[:max]
+		}
+		hdr := []byte{byte(len(chunk)), byte(len(chunk) >> 8), byte(len(chunk) >> 16), seq + byte(n)}
+		if _, err := c.Write(append(hdr, chunk...)); err != nil {
+			return n, err
+		}
+		n++
+		payload = payload[len(chunk):]
+		if len(chunk) < max {
+			return n, nil
+		}
+	}
 }
 
 func readPacket(c net.Conn) (byte, []byte, error) {
@@ -267,6 +293,9 @@ func handshake() []byte {
 var okPacket = []byte{0, 0, 0, 2, 0, 0, 0}
 
 func rst(c net.Conn) {
+	if cc, ok := c.(*chopConn); ok {
+		c = cc.Conn
+	}
 	if tc, ok := c.(*net.TCPConn); ok {
 		tc.SetLinger(0)
 	}
@@ -301,8 +330,46 @@ func min(a, b int) int {
 	return b
 }
 
+// chopConn writes in pieces (see ConnPlan.Chop).
+type chopConn struct {
+	net.Conn
+	x uint32
+}
+
+var chopSizes = []int{1, 1, 2, 3, 4, 5, 7, 13, 64, 300, 1000, 4095, 4096, 4097, 16384}
+
+func (c *chopConn) Write(b []byte) (int, error) {
+	n := 0
+	for len(b) > 0 {
+		c.x = c.x*1664525 + 1013904223
+		k := chopSizes[int(c.x>>16)%len(chopSizes)]
+		if k > len(b) {
+			k = len(b)
+		}
+		m, err := c.Conn.Write(b[:k])
+		n += m
+		if err != nil {
+			return n, err
+		}
+		b = b[k:]
+		switch (c.x >> 8) & 7 {
+		case 0:
+			time.Sleep(20 * time.Microsecond)
+		case 1, 2:
+			runtime.Gosched()
+		}
+	}
+	return n, nil
+}
+
 func (p *ConnPlan) serve(c net.Conn) {
 	defer close(p.Finished)
+	if p.Chop != 0 {
+		if tc, ok := c.(*net.TCPConn); ok {
+			tc.SetNoDelay(true)
+		}
+		c = &chopConn{Conn: c, x: p.Chop}
+	}
 	p.conn = c
 	peerGone := func() {
 		select {
@@ -467,8 +534,9 @@ func (p *ConnPlan) dump(c net.Conn, req Command) {
 			_, err = c.Write(append(hdr, s.Payload[:n]...))
 			seq++
 		} else {
-			err = writePacket(c, seq+byte(s.SeqSkew), s.Payload)
-			seq++
+			var np int
+			np, err = writePackets(c, seq+byte(s.SeqSkew), s.Payload)
+			seq += byte(np)
 		}
 		if err != nil {
 			break
